@@ -12,7 +12,8 @@ from ..cfg import cfg_of
 from ..protocol import Proto
 from ..fold import (Folder, Instance, Opaque, FuncVal, Env, FoldRaise,
                     ClassVal)
-from .. import shared, boolfn
+from .. import shared, boolfn, pathsum
+from ..pathsum import struct, show, is_const, subterms
 from .c10 import find_calls
 
 SB = 'minecraft.networking.packets.serverbound'
@@ -30,37 +31,40 @@ def conj(conds):
 def run(report, db, tier):
     report.explanation = (
         'Negotiation is a decision tree over (allowed set size, status '
-        'contents, membership); each leaf effect (raise invalid, default '
-        'version, mismatch, proceed) is located on the CFG and its path '
-        'condition compared, as a boolean function, with the documented '
-        'one.  The version helper and _version_mismatch are folded on '
-        'representative constants.')
+        'contents, membership).  Every path of connect(), of the status '
+        'evaluation, of the status reactor and of status() is summarised '
+        '(vp.pathsum: decisions in normal form, effects in order, values as '
+        'terms, helpers inlined) and each leaf effect (raise invalid, '
+        'default version, mismatch, proceed; handshake + login start or '
+        'status request; ping / disconnect) is compared with the '
+        'documented decision table.  The version helper and '
+        '_version_mismatch are folded on representative constants.')
     cg = CallGraph(db)
     M = ConnModel(db, cg)
     P = Proto(db)
+    S = shared.summariser(db, cg)
     construction(report, db, cg, M, P)
-    shortcut(report, db, cg, M, P)
-    status_evaluation(report, db, cg, M, P)
+    shortcut(report, db, S, M, P)
+    status_evaluation(report, db, S, M, P)
     mismatch(report, db, cg, M, P)
     R5 = report.rule('R09.5', 'EOF fallback: exactly EOFError, close '
                      'immediately, default version, handled')
-    shared.eof_fallback(report, R5, db, cg)
-    plain_status(report, db, cg, M, P)
+    shared.eof_fallback_ps(report, R5, db, S)
+    plain_status(report, db, S, M, P)
     R7 = report.rule('R09.7', 'status arms: compared names exist in the '
                      'status table, fields read exist')
     sr = db.get_class(CONN, 'StatusReactor')
-    shared.name_agreement(report, R7, db, P, sr, 'status', M)
+    shared.name_agreement_ps(report, R7, db, P, S, sr, 'status')
     R3 = report.rule('R09.3', 'handshake / request / ping packets have '
                      'every field set, from the right sources')
     n = 0
     for nm in ('_handshake', 'connect', 'status'):
-        n += shared.field_completeness(report, R3, db, cg, P, M,
-                                       M.conn_method(nm))
-    n += shared.field_completeness(report, R3, db, cg, P, M,
-                                   db.own_method(sr, 'react'))
+        n += shared.field_completeness_ps(report, R3, db, P, S,
+                                          M.conn_method(nm))
+    n += shared.field_completeness_ps(report, R3, db, P, S,
+                                      db.own_method(sr, 'react'))
     report.floor('negotiation write sites', n, 5)
-    handshake_sources(report, db, cg, M, P, R3)
-    version_in_force(report, db, cg, M, P)
+    handshake_sources(report, db, S, M, P, R3)
 
 
 # ---------------------------------------------------------------------------
@@ -170,110 +174,192 @@ def construction(report, db, cg, M, P):
 
 
 # ---------------------------------------------------------------------------
-def shortcut(report, db, cg, M, P):
+def sy(n):
+    return ('sym', n)
+
+
+def at(base, *names):
+    for n in names:
+        base = ('attr', base, n)
+    return base
+
+
+def obj_class(t, name):
+    return t[0] == 'obj' and t[2].split('.')[-1] == name
+
+
+def call_arg(e, fi_target, name, skip_self=True):
+    """argument bound to parameter `name` of the (unit) callee of event e"""
+    kw = dict(e.kwargs)
+    if name in kw:
+        return kw[name]
+    params = list(fi_target.params)
+    args = list(e.args)
+    if fi_target.kind in ('instance', 'class') and len(args) < len(params) \
+            and skip_self:
+        params = params[1:]
+    elif fi_target.kind in ('instance', 'class') and skip_self and \
+            len(args) == len(params):
+        pass
+    if name in params and params.index(name) < len(args):
+        return args[params.index(name)]
+    return None
+
+
+def shortcut(report, db, S, M, P):
     R = report.rule('R09.2', 'connect(): exactly one allowed version -> '
                     'handshake(playing) + login start naming the profile '
                     'or user + LoginReactor, no status request; otherwise '
                     'handshake(status) + request + PlayingStatusReactor')
+    R8 = report.rule('R09.8', 'connect() puts the newest allowed version in '
+                     'force before the handshake and before the reactor '
+                     'builds its id table')
     fi = M.conn_method('connect')
-    g = cfg_of(fi)
-    me = fi.params[0]
+    me = sy(fi.params[0])
     hs = M.conn_method('_handshake')
-    live = g.reachable_nodes()
-    ref = ast.parse('len(%s.allowed_proto_versions) == 1' % me,
-                    mode='eval').body
-
-    def arm_of(n):
-        conds = [(e, t) for e, t in boolfn.path_conditions(g, n)
-                 if 'allowed_proto_versions' in ast.unparse(e)]
-        if len(conds) != 1:
-            return None
-        e, t = conds[0]
-        if boolfn.same_function(e, ref):
-            return 'single' if t else 'multi'
-        return None
-    info = {'single': dict(hs=[], writes=[], reactor=[]),
-            'multi': dict(hs=[], writes=[], reactor=[])}
-    for n in live:
-        if n.ast is None:
+    consts = {'STATE_PLAYING': P.F.module_global(fi.module, 'STATE_PLAYING'),
+              'STATE_STATUS': P.F.module_global(fi.module, 'STATE_STATUS')}
+    single = ('op', '==', (('op', 'len', (at(me, 'allowed_proto_versions'),)),
+                           ('const', 1)))
+    want = {True: ('STATE_PLAYING', ['LoginStartPacket'], 'LoginReactor'),
+            False: ('STATE_STATUS', ['RequestPacket'],
+                    'PlayingStatusReactor')}
+    seen = {True: 0, False: 0}
+    prob = {}
+    names = {}
+    inforce = []
+    for p in S.run(fi):
+        if not p.returns:
             continue
-        a = arm_of(n)
-        for c in n.calls():
-            if any(m is hs for m, _, _ in cg.callee_funcs(fi, c)):
-                if a is None:
-                    report.violation(R, 'connect:handshake-unguarded',
-                                     fi.path, c, fi.qualname, 'a handshake '
-                                     'is sent outside the single/multi '
-                                     'version decision')
-                else:
-                    info[a]['hs'].append(c)
-            if isinstance(c.func, ast.Attribute) and \
-                    c.func.attr == 'write_packet' and a is not None:
-                info[a]['writes'].append(c)
-        if isinstance(n.ast, ast.Assign) and a is not None and any(
-                isinstance(t, ast.Attribute) and t.attr == 'reactor'
-                for t in n.ast.targets):
-            info[a]['reactor'].append(n.ast)
-    built = shared.constructed_packets(db, cg, P, fi)
-
-    def cls_of(arg):
-        if isinstance(arg, ast.Name) and arg.id in built:
-            return built[arg.id][0].name
-        if isinstance(arg, ast.Call):
-            ent = db.resolve_dotted(fi.module, arg.func)
-            return getattr(ent, 'name', None)
-        return None
-    want = {'single': ('STATE_PLAYING', ['LoginStartPacket'],
-                       'LoginReactor'),
-            'multi': ('STATE_STATUS', ['RequestPacket'],
-                      'PlayingStatusReactor')}
-    for arm, (state, pkts, reactor) in want.items():
-        d = info[arm]
+        arm = None
+        for a, pol, _ in p.conds:
+            if struct(a) == single:
+                arm = pol
+        evs = p.flat(('call', 'store'))
+        hcalls = [e for e in evs if e.calls(hs)]
+        writes = shared.written_packets(p, P, db)
+        reactor = [e for e in evs if e.kind == 'store'
+                   and struct(e.base) == me and e.attr == 'reactor']
+        if not (hcalls or writes or reactor):
+            continue
+        if arm is None:
+            prob['connect:handshake-unguarded'] = (
+                hcalls[0].node if hcalls else fi.node,
+                'a handshake is sent outside the single/multi version '
+                'decision')
+            continue
+        seen[arm] += 1
+        state, pkts, rname = want[arm]
         states = []
-        for c in d['hs']:
-            v = [k.value for k in c.keywords if k.arg == 'next_state'] or \
-                list(c.args[:1])
-            states.append(ast.unparse(v[0]) if v else
-                          'STATE_PLAYING (default)')
-        got_p = [cls_of(c.args[0]) for c in d['writes'] if c.args]
-        got_r = [ast.unparse(a.value.func).split('.')[-1]
-                 for a in d['reactor'] if isinstance(a.value, ast.Call)]
-        if states == [state] and got_p == pkts and got_r == [reactor]:
-            report.ok(R, '%s allowed version(s): handshake(%s), write %s, '
-                      'reactor %s' % ('one' if arm == 'single'
-                                      else 'several', state, pkts, reactor))
-        else:
-            report.violation(R, 'connect:%s-arm' % arm, fi.path, fi.node,
-                             fi.qualname, 'with %s allowed version(s) '
-                             'connect() does handshake%s, writes %s, '
-                             'installs %s; expected handshake[%s], %s, [%s]'
-                             % ('one' if arm == 'single' else 'several',
-                                states, got_p, got_r, state, pkts, reactor))
-    # login name source
-    names = [n for n in live if isinstance(n.ast, ast.Assign) and any(
-        isinstance(t, ast.Attribute) and t.attr == 'name'
-        for t in n.ast.targets)]
-    srcs = {}
-    for n in names:
-        conds = [(ast.unparse(e), t) for e, t in
-                 boolfn.path_conditions(g, n) if 'auth_token' in
-                 ast.unparse(e)]
-        srcs[ast.unparse(n.ast.value)] = conds
-    want_src = {'%s.auth_token.profile.name' % me:
-                [('%s.auth_token' % me, True)],
-                '%s.username' % me: [('%s.auth_token' % me, False)]}
-    if srcs == want_src:
+        for e in hcalls:
+            v = call_arg(e, hs, 'next_state')
+            if v is None:
+                d = hs.node.args.defaults
+                v = ('const', consts['STATE_PLAYING']) if d else None
+            states.append(v[1] if v is not None and is_const(v) else
+                          show(v) if v is not None else None)
+        got_p = [o[2].split('.')[-1] for _, o, _ in writes]
+        got_r = [e.value[2].split('.')[-1] if e.value[0] == 'obj'
+                 else show(e.value) for e in reactor]
+        if not (states == [consts[state]] and got_p == pkts
+                and got_r == [rname]):
+            prob['connect:%s-arm' % ('single' if arm else 'multi')] = (
+                fi.node, 'with %s allowed version(s) connect() does '
+                'handshake%s, writes %s, installs %s; expected '
+                'handshake[%s], %s, [%s]' % (
+                    'one' if arm else 'several', states, got_p, got_r,
+                    state, pkts, rname))
+        # the login name
+        if arm:
+            tok = None
+            for a, pol, _ in p.conds:
+                if a[1] == 'truth' and struct(a[2][0]) == at(me,
+                                                             'auth_token'):
+                    tok = pol
+                if a[1] == 'is' and struct(a[2][0]) == at(
+                        me, 'auth_token') and a[2][1] == ('const', None):
+                    tok = not pol
+            for _, o, fields in writes:
+                if obj_class(o, 'LoginStartPacket'):
+                    names[tok] = fields.get('name')
+        # R09.8: the version in force
+        st = [i for i, e in enumerate(evs) if e.kind == 'store'
+              and struct(e.base) == at(me, 'context')
+              and e.attr == 'protocol_version']
+        later = [i for i, e in enumerate(evs) if e.calls(hs) or (
+            e.kind == 'store' and e.base[0] == 'obj' and e.base[3]
+            is not None and db.is_subclass(e.base[3], M.reactor))]
+        inforce.append((p, [evs[i] for i in st],
+                        bool(st) and bool(later) and st[0] < min(later)))
+    for arm in (True, False):
+        if not seen[arm] and not prob:
+            prob['connect:%s-arm' % ('single' if arm else 'multi')] = (
+                fi.node, 'no path of connect() handles %s allowed '
+                'version(s)' % ('exactly one' if arm else 'several'))
+    for key, (node, msg) in sorted(prob.items()):
+        report.violation(R, key, fi.path, node, fi.qualname, msg)
+    if not prob:
+        report.ok(R, 'one allowed version: handshake(playing), login '
+                  'start, LoginReactor; several: handshake(status), '
+                  'request, PlayingStatusReactor')
+    want_names = {True: at(me, 'auth_token', 'profile', 'name'),
+                  False: at(me, 'username')}
+    got_names = {k: struct(v) if v is not None else None
+                 for k, v in names.items()}
+    if got_names == want_names:
         report.ok(R, 'login name: profile name if a token is set, else the '
                   'configured username')
     else:
         report.violation(R, 'connect:login-name', fi.path, fi.node,
                          fi.qualname, 'the login start names %s; it must '
                          'name the authenticated profile when a token is '
-                         'set and the configured username otherwise' % srcs)
+                         'set and the configured username otherwise' % {
+                             {True: 'with a token', False: 'without a token',
+                              None: 'regardless of the token'}[k]:
+                             show(v) if v is not None else None
+                             for k, v in names.items()})
+    # R09.8
+    if not inforce or any(len(sts) != 1 for _, sts, _ in inforce):
+        report.violation(R8, 'inforce:store', fi.path, fi.node, fi.qualname,
+                         'connect() does not set context.protocol_version '
+                         'exactly once on every path')
+        return
+    vals = set()
+    for _, sts, _ in inforce:
+        v = sts[0].value
+        okv = v[0] == 'op' and v[1] == 'max' and len(v[2]) == 2 and \
+            struct(v[2][0]) == at(me, 'allowed_proto_versions') and \
+            v[2][1][0] == 'op' and v[2][1][1] == 'kw:key' and \
+            struct(v[2][1][2][0]) in (
+                ('attr', ('glob', 'minecraft', 'PROTOCOL_VERSION_INDICES'),
+                 'get'),) or (
+            v[0] == 'op' and v[1] == 'max' and len(v[2]) == 2 and
+            struct(v[2][0]) == at(me, 'allowed_proto_versions') and
+            v[2][1][0] == 'op' and v[2][1][1] == 'kw:key' and
+            v[2][1][2][0][0] == 'attr' and v[2][1][2][0][2] == 'get' and
+            v[2][1][2][0][1][0] == 'glob' and
+            v[2][1][2][0][1][2] == 'PROTOCOL_VERSION_INDICES')
+        vals.add((okv, show(v)))
+    if all(k for k, _ in vals):
+        report.ok(R8, 'version in force = max(allowed, key=chronological '
+                  'index)')
+    else:
+        report.violation(R8, 'inforce:value', fi.path, inforce[0][1][0].node,
+                         fi.qualname, 'the version in force is %s, not the '
+                         'chronologically newest allowed version'
+                         % sorted(t for k, t in vals if not k))
+    if all(o for _, _, o in inforce):
+        report.ok(R8, 'the store precedes the handshake and the reactor '
+                  'construction on %d path(s)' % len(inforce))
+    else:
+        report.violation(R8, 'inforce:order', fi.path, inforce[0][1][0].node,
+                         fi.qualname, 'a handshake or reactor is created '
+                         'before the version in force is set: it would use '
+                         'the previous connection\'s version')
 
 
 # ---------------------------------------------------------------------------
-def status_evaluation(report, db, cg, M, P):
+def status_evaluation(report, db, S, M, P):
     R = report.rule('R09.4', 'status evaluation order: empty -> invalid; '
                     'no version/protocol -> default version; not allowed '
                     '-> mismatch naming the server; else narrow to the '
@@ -282,127 +368,155 @@ def status_evaluation(report, db, cg, M, P):
     fi = db.own_method(psr, 'handle_status')
     if fi is None:
         raise AnalysisError('PlayingStatusReactor.handle_status vanished')
-    g = cfg_of(fi)
-    st = fi.params[1]
-    live = g.reachable_nodes()
+    me, st = sy(fi.params[0]), sy(fi.params[1])
     vm = M.conn_method('_version_mismatch')
-    A = "%s == {}" % st
-    B = "'version' not in %s or 'protocol' not in %s['version']" % (st, st)
-    proto_src = "%s['version']['protocol']" % st
-    eff = {}
-    for n in live:
-        if n.ast is None:
-            continue
-        if isinstance(n.ast, ast.Raise):
-            eff.setdefault('invalid', []).append(n)
-        for c in n.calls():
-            f = ast.unparse(c.func)
-            if f.endswith('.handle_failure'):
-                eff.setdefault('default', []).append(n)
-            elif any(m is vm for m, _, _ in cg.callee_funcs(fi, c)):
-                eff.setdefault('mismatch', []).append((n, c))
-            elif f.endswith('.handle_proto_version'):
-                eff.setdefault('proceed', []).append((n, c))
-    pvar = None
-    for n in live:
-        if isinstance(n.ast, ast.Assign) and isinstance(
-                n.ast.targets[0], ast.Name) and \
-                ast.unparse(n.ast.value) == proto_src:
-            pvar = n.ast.targets[0].id
-    if pvar is None:
-        report.violation(R, 'status:proto-source', fi.path, fi.node,
-                         fi.qualname, 'the server protocol is not taken '
-                         'from status["version"]["protocol"]')
-        return
-    C = '%s not in %s.connection.allowed_proto_versions' % (pvar,
-                                                             fi.params[0])
-    refs = {
-        'invalid': A,
-        'default': 'not (%s) and (%s)' % (A, B),
-        'mismatch': 'not (%s) and not (%s) and (%s)' % (A, B, C),
-        'proceed': 'not (%s) and not (%s) and not (%s)' % (A, B, C),
-    }
-    for kind in ('invalid', 'default', 'mismatch', 'proceed'):
-        nodes = eff.get(kind, [])
-        if len(nodes) != 1:
-            report.violation(R, 'status:%s:sites' % kind, fi.path, fi.node,
-                             fi.qualname, 'expected exactly one site for '
-                             'the %r outcome, found %d' % (kind, len(nodes)))
-            continue
-        n = nodes[0][0] if isinstance(nodes[0], tuple) else nodes[0]
-        conds = boolfn.path_conditions(g, n)
-        if kind == 'proceed' and eff.get('mismatch'):
-            # the mismatch call raises: falling past it means it was not
-            # taken
-            mn = eff['mismatch'][0][0]
-            mc = boolfn.path_conditions(g, mn)
-            extra = [c for c in mc if c not in conds]
-            if extra:
-                conds = conds + [(conj(extra), False)]
-        got = conj(conds)
-        ref = ast.parse(refs[kind], mode='eval').body
-        if boolfn.same_function(got, ref):
-            report.ok(R, '%s when %s' % (kind, refs[kind]))
-        else:
-            report.violation(R, 'status:%s:condition' % kind, fi.path,
-                             n.ast, fi.qualname, 'the %r outcome is taken '
-                             'when [%s]; documented: [%s]' % (
-                                 kind, ast.unparse(got), refs[kind]))
-    # arguments
-    if eff.get('mismatch'):
-        n, c = eff['mismatch'][0]
-        kw = {k.arg: ast.unparse(k.value) for k in c.keywords}
-        if kw.get('server_protocol') == pvar and kw.get(
-                'server_version') == "%s['version'].get('name')" % st:
-            report.ok(R, '_version_mismatch(server_protocol=proto, '
-                      'server_version=name)')
-        else:
-            report.violation(R, 'status:mismatch-args', fi.path, c,
-                             fi.qualname, 'the mismatch error is built '
-                             'from %s, not from the server\'s protocol and '
-                             'version name' % kw)
-    if eff.get('proceed'):
-        n, c = eff['proceed'][0]
-        if [ast.unparse(a) for a in c.args] == [pvar]:
-            report.ok(R, 'handle_proto_version(proto)')
-        else:
-            report.violation(R, 'status:proceed-arg', fi.path, c,
-                             fi.qualname, 'login proceeds with %s, not with '
-                             'the server\'s protocol' % [ast.unparse(a)
-                                                         for a in c.args])
-    if eff.get('invalid'):
-        n = eff['invalid'][0]
-        if 'IOError' in ast.unparse(n.ast) or 'OSError' in ast.unparse(
-                n.ast):
-            report.ok(R, 'empty status raises an I/O error')
-    # handle_failure -> default version; handle_proto_version narrows, then
-    # connects
     hf = db.own_method(psr, 'handle_failure')
     hpv = db.own_method(psr, 'handle_proto_version')
     if hf is None or hpv is None:
         raise AnalysisError('handle_failure / handle_proto_version vanished')
-    calls = [c for c in ast.walk(hf.node) if isinstance(c, ast.Call)
-             and ast.unparse(c.func).endswith('handle_proto_version')]
-    if len(calls) == 1 and ast.unparse(calls[0].args[0]).endswith(
-            '.connection.default_proto_version'):
+    ver = ('op', 'index', (st, ('const', 'version')))
+    proto = ('op', 'index', (ver, ('const', 'protocol')))
+    allowed = at(me, 'connection', 'allowed_proto_versions')
+
+    def facts(p):
+        f = dict(empty=None, has_version=None, has_proto=None, allowed=None)
+        for a, pol, _ in p.conds:
+            sa = struct(a)
+            if sa[1] == '==' and set(sa[2]) == {st, ('dict', ())}:
+                f['empty'] = pol
+            elif sa[1] == 'truth' and sa[2][0] == st:
+                f['empty'] = not pol
+            elif sa[1] == 'in' and sa[2] == (('const', 'version'), st):
+                f['has_version'] = pol
+            elif sa[1] == 'in' and sa[2] == (('const', 'protocol'), ver):
+                f['has_proto'] = pol
+            elif sa[1] == 'in' and sa[2][1] == allowed:
+                f['allowed'] = (pol, a[2][0])
+        return f
+    outcomes = {}
+    prob = []
+    for p in S.run(fi):
+        f = facts(p)
+        evs = p.flat(('call',))
+        kinds = []
+        for e in evs:
+            if e.calls(hf):
+                kinds.append(('default', e))
+            elif e.calls(vm):
+                kinds.append(('mismatch', e))
+            elif e.calls(hpv):
+                kinds.append(('proceed', e))
+        if p.raises and len(p.outcome) == 3:
+            kinds.append(('invalid', None))
+        if f['empty'] is True:
+            want = 'invalid'
+        elif f['empty'] is False and (f['has_version'] is False or (
+                f['has_version'] and f['has_proto'] is False)):
+            want = 'default'
+        elif f['empty'] is False and f['has_version'] and f['has_proto'] \
+                and f['allowed'] is not None:
+            want = 'proceed' if f['allowed'][0] else 'mismatch'
+            if struct(f['allowed'][1]) != proto:
+                prob.append(('status:proto-source', fi.node, 'the server '
+                             'protocol tested against the allowed set is '
+                             '%s, not status["version"]["protocol"]'
+                             % show(f['allowed'][1])))
+        else:
+            want = None
+        got = [k for k, _ in kinds]
+        outcomes.setdefault(want, []).append((p, kinds))
+        if want is None:
+            if got:
+                prob.append(('status:%s:condition' % got[0], fi.node,
+                             'the %r outcome is taken when [%s]; the '
+                             'documented order is: empty -> invalid, no '
+                             'version/protocol -> default, not allowed -> '
+                             'mismatch, else proceed' % (got[0],
+                                                         p.cond_text())))
+            continue
+        if got != [want]:
+            prob.append(('status:%s:condition' % want, fi.node, 'when [%s] '
+                         'the outcome is %s; documented: %s' % (
+                             p.cond_text(), got or 'nothing', want)))
+            continue
+        e = kinds[0][1]
+        if want == 'invalid':
+            v = p.outcome[1]
+            cls = v[1][1] if v[0] == 'call' and v[1][0] in ('builtin',
+                                                             'ext') else ''
+            if cls.split('.')[-1] not in ('IOError', 'OSError'):
+                prob.append(('status:invalid:type', p.outcome[2], 'an empty '
+                             'status raises %s' % show(v)))
+        elif want == 'mismatch':
+            sp = call_arg(e, vm, 'server_protocol')
+            sv = call_arg(e, vm, 'server_version')
+            name_ok = sv is not None and (
+                (sv[0] == 'call' and sv[1][0] == 'attr' and sv[1][2] == 'get'
+                 and struct(sv[1][1]) == ver
+                 and sv[2][:1] == (('const', 'name'),))
+                or struct(sv) == ('op', 'index', (ver, ('const', 'name'))))
+            if sp is None or struct(sp) != proto or not name_ok:
+                prob.append(('status:mismatch-args', e.node, 'the mismatch '
+                             'error is built from %s / %s, not from the '
+                             'server\'s protocol and version name' % (
+                                 show(sp) if sp else None,
+                                 show(sv) if sv else None)))
+        elif want == 'proceed':
+            a = [x for x in e.args if struct(x) != me]
+            if [struct(x) for x in a] != [proto]:
+                prob.append(('status:proceed-arg', e.node, 'login proceeds '
+                             'with %s, not with the server\'s protocol'
+                             % [show(x) for x in a]))
+    for kind in ('invalid', 'default', 'mismatch', 'proceed'):
+        if kind not in outcomes and not prob:
+            prob.append(('status:%s:sites' % kind, fi.node, 'no path '
+                         'decides the %r outcome' % kind))
+    seen = set()
+    for key, node, msg in prob:
+        if key in seen:
+            continue
+        seen.add(key)
+        report.violation(R, key, fi.path, node, fi.qualname, msg)
+    if not prob:
+        report.ok(R, 'empty -> invalid (I/O error); no version/protocol -> '
+                  'default; not allowed -> _version_mismatch(protocol, '
+                  'name); allowed -> handle_proto_version(protocol)')
+    # handle_failure -> default version
+    okd = True
+    for p in S.run(hf):
+        cs = [e for e in p.calls() if e.calls(hpv)]
+        hme = sy(hf.params[0])
+        if len(cs) != 1 or [struct(x) for x in cs[0].args
+                            if struct(x) != hme] != [
+                at(hme, 'connection', 'default_proto_version')]:
+            okd = False
+    if okd:
         report.ok(R, 'handle_failure -> handle_proto_version(default)')
     else:
         report.violation(R, 'status:default-version', hf.path, hf.node,
                          hf.qualname, 'the fallback does not use the '
                          'configured default version')
-    gp = cfg_of(hpv)
-    pv = hpv.params[1]
-    narrow = [n for n in gp.reachable_nodes() if isinstance(
-        n.ast, ast.Assign) and any(isinstance(t, ast.Attribute)
-                                   and t.attr == 'allowed_proto_versions'
-                                   for t in n.ast.targets)]
-    conn = [n for n in gp.reachable_nodes() if n.ast is not None and any(
-        ast.unparse(c.func).endswith('.connect') for c in n.calls())]
-    if len(narrow) == 1 and len(conn) == 1 and \
-            ast.unparse(narrow[0].ast.value) in ('{%s}' % pv,
-                                                 'set([%s])' % pv,
-                                                 'set((%s,))' % pv) and \
-            gp.dominates(narrow[0], conn[0]):
+    # handle_proto_version narrows, then connects
+    pme, pv = sy(hpv.params[0]), sy(hpv.params[1])
+    okn = True
+    for p in S.run(hpv):
+        evs = p.flat(('call', 'store'))
+        nar = [i for i, e in enumerate(evs) if e.kind == 'store'
+               and struct(e.base) == at(pme, 'connection')
+               and e.attr == 'allowed_proto_versions']
+        con = [i for i, e in enumerate(evs) if e.kind == 'call'
+               and e.method() == 'connect']
+        if len(nar) != 1 or len(con) != 1 or nar[0] > con[0]:
+            okn = False
+            continue
+        v = struct(evs[nar[0]].value)
+        if v not in (('set', (pv,)),
+                     ('op', 'set', (('list', (pv,)),)),
+                     ('op', 'set', (('tuple', (pv,)),)),
+                     ('op', 'frozenset', (('tuple', (pv,)),)),
+                     ('op', 'frozenset', (('list', (pv,)),))):
+            okn = False
+    if okn:
         report.ok(R, 'allowed set narrowed to {version} before connect()')
     else:
         report.violation(R, 'status:narrow', hpv.path, hpv.node,
@@ -475,7 +589,7 @@ def mismatch(report, db, cg, M, P):
 
 
 # ---------------------------------------------------------------------------
-def plain_status(report, db, cg, M, P):
+def plain_status(report, db, S, M, P):
     R = report.rule('R09.6', 'plain status: the handler gets the parsed '
                     'status exactly once; ping only if requested; every '
                     'terminal arm disconnects; status() maps '
@@ -483,167 +597,182 @@ def plain_status(report, db, cg, M, P):
                     'the lock')
     sr = db.get_class(CONN, 'StatusReactor')
     fi = db.own_method(sr, 'react')
-    arms = shared.reactor_arms(fi)
-    g = cfg_of(fi)
-    me, pk = fi.params[0], fi.params[1]
+    me, pk = sy(fi.params[0]), sy(fi.params[1])
+    disconnect = M.conn_method('disconnect')
+    paths = S.run(fi)
+    arms = {}
+    for p in paths:
+        arms.setdefault(shared.arm_of(p, pk), []).append(p)
     if 'response' not in arms or 'ping' not in arms:
         report.violation(R, 'status:arms', fi.path, fi.node, fi.qualname,
                          'StatusReactor lacks a response or ping arm')
         return
-    st, body = arms['response']
-    hs = find_calls(body, lambda c: ast.unparse(c.func) ==
-                    '%s.handle_status' % me)
-    tests = [n for n in g.reachable_nodes() if n.kind == 'test'
-             and n.ast is st.test]
-    hn = []
-    for h in hs:
-        hn += M.cfg_nodes_of(fi, h)
-    once = len(hs) == 1 and tests and g.exists_path(
-        tests[0], lambda x: x is g.exit, avoid=lambda x: x in hn,
-        start_labels=('true',)) is None and not any(
-            g.exists_path(n, lambda x: x is n) for n in hn)
-    if once:
-        a = hs[0].args[0]
-        src = None
-        for s in body:
-            for x in ast.walk(s):
-                if isinstance(x, ast.Assign) and isinstance(
-                        x.targets[0], ast.Name) and isinstance(a, ast.Name) \
-                        and x.targets[0].id == a.id:
-                    src = ast.unparse(x.value)
-        if src == 'json.loads(%s.json_response)' % pk:
-            report.ok(R, 'handle_status(json.loads(packet.json_response)) '
-                      'exactly once')
+    do_ping = at(me, 'do_ping')
+
+    def ping_fact(p):
+        for a, pol, _ in p.conds:
+            if a[1] == 'truth' and struct(a[2][0]) == do_ping:
+                return pol
+        return None
+    prob = {}
+    sent_clock = None
+    for p in arms['response']:
+        evs = p.flat(('call',))
+        hcalls = [e for e in evs if e.fn[0] == 'attr'
+                  and struct(e.fn[1]) == me and e.fn[2] == 'handle_status'
+                  or e.fn[0] == 'fn' and e.method() == 'handle_status']
+        if len(hcalls) != 1:
+            prob['status:handler-once'] = (
+                'the status handler is not called exactly once on every '
+                'path of the response arm (%d calls when [%s])'
+                % (len(hcalls), p.cond_text()))
         else:
-            report.violation(R, 'status:handler-arg', fi.path, hs[0],
-                             fi.qualname, 'the status handler receives %s, '
-                             'not the parsed response' % src)
-    else:
-        report.violation(R, 'status:handler-once', fi.path, st, fi.qualname,
-                         'the status handler is not called exactly once on '
-                         'every path of the response arm (%d call sites)'
-                         % len(hs))
-    # ping only under do_ping; disconnect otherwise
-    pings = find_calls(body, lambda c: isinstance(c.func, ast.Attribute)
-                       and c.func.attr == 'write_packet')
-    dcs = find_calls(body, lambda c: isinstance(c.func, ast.Attribute)
-                     and c.func.attr == 'disconnect')
-    okp = True
-    for c in pings:
-        for n in M.cfg_nodes_of(fi, c):
-            conds = [(ast.unparse(e), t) for e, t in
-                     boolfn.path_conditions(g, n) if 'do_ping' in
-                     ast.unparse(e)]
-            if conds != [('%s.do_ping' % me, True)]:
-                okp = False
-    for c in dcs:
-        for n in M.cfg_nodes_of(fi, c):
-            conds = [(ast.unparse(e), t) for e, t in
-                     boolfn.path_conditions(g, n) if 'do_ping' in
-                     ast.unparse(e)]
-            if conds != [('%s.do_ping' % me, False)]:
-                okp = False
-    if okp and len(pings) == 1 and len(dcs) == 1:
-        report.ok(R, 'response arm: ping iff do_ping, else disconnect')
-    else:
-        report.violation(R, 'status:ping-guard', fi.path, st, fi.qualname,
-                         'the response arm must write one ping exactly when '
-                         'latency was requested and disconnect otherwise '
-                         '(%d pings, %d disconnects)' % (len(pings),
-                                                         len(dcs)))
-    st2, body2 = arms['ping']
-    d2 = find_calls(body2, lambda c: isinstance(c.func, ast.Attribute)
-                    and c.func.attr == 'disconnect')
-    hp = find_calls(body2, lambda c: ast.unparse(c.func) ==
-                    '%s.handle_ping' % me)
-    if len(d2) == 1 and len(hp) == 1:
-        report.ok(R, 'ping arm: disconnect and handle_ping once')
-    else:
-        report.violation(R, 'status:pong-arm', fi.path, st2, fi.qualname,
-                         'the pong arm must disconnect and report the '
-                         'latency once (%d / %d)' % (len(d2), len(hp)))
+            a = [x for x in hcalls[0].args if struct(x) != me]
+            want = ('call', ('ext', 'json.loads'),
+                    (at(pk, 'json_response'),), (), None)
+            if [struct(x) for x in a] != [want]:
+                prob['status:handler-arg'] = (
+                    'the status handler receives %s, not the parsed '
+                    'response' % [show(x) for x in a])
+        pf = ping_fact(p)
+        pings = [w for w in shared.written_packets(p, P, db)
+                 if obj_class(w[1], 'PingPacket')]
+        dcs = [e for e in evs if e.calls(disconnect)]
+        if pf is None or len(pings) != (1 if pf else 0) or \
+                len(dcs) != (0 if pf else 1):
+            prob['status:ping-guard'] = (
+                'the response arm must write one ping exactly when latency '
+                'was requested and disconnect otherwise (%d pings, %d '
+                'disconnects when [%s])' % (len(pings), len(dcs),
+                                            p.cond_text()))
+        for _, o, fields in pings:
+            sent_clock = fields.get('time')
+    now_minus = None
+    n_pong = 0
+    for p in arms['ping']:
+        evs = p.flat(('call',))
+        pf = ping_fact(p)
+        hp = [e for e in evs if e.method() == 'handle_ping']
+        dcs = [e for e in evs if e.calls(disconnect)]
+        if pf is False:
+            # latency was not requested: a stray pong is ignored
+            if hp or dcs:
+                prob['status:pong-arm'] = (
+                    'a pong is processed although no ping was requested')
+            continue
+        n_pong += 1
+        if len(dcs) != 1 or len(hp) != 1:
+            prob['status:pong-arm'] = (
+                'the pong arm must disconnect and report the latency once '
+                '(%d / %d)' % (len(dcs), len(hp)))
+        elif hp:
+            a = [x for x in hp[0].args if struct(x) != me]
+            now_minus = a[0] if len(a) == 1 else None
+    if not n_pong:
+        prob.setdefault('status:pong-arm', 'no path of the pong arm reports '
+                        'the latency')
     # latency = now - sent, same clock on both sides
-    sent = None
-    for s in body:
-        for x in ast.walk(s):
-            if isinstance(x, ast.Assign) and isinstance(
-                    x.targets[0], ast.Attribute) and \
-                    x.targets[0].attr == 'time':
-                sent = ast.unparse(x.value)
-    now = None
-    nowvar = None
-    for s in body2:
-        for x in ast.walk(s):
-            if isinstance(x, ast.Assign) and isinstance(
-                    x.targets[0], ast.Name) and isinstance(x.value,
-                                                           ast.Call):
-                nowvar, now = x.targets[0].id, ast.unparse(x.value)
-    if hp and sent and now == sent and [ast.unparse(a) for a in hp[0].args] \
-            == ['%s - %s.time' % (nowvar, pk)]:
-        report.ok(R, 'latency = now - packet.time on one clock (%s)' % now)
-    else:
-        report.violation(R, 'status:latency', fi.path, st2, fi.qualname,
-                         'latency is %s with sent=%s now=%s: both stamps '
-                         'must come from the same clock expression and the '
-                         'difference be now - sent' % (
-                             [ast.unparse(a) for a in hp[0].args] if hp
-                             else None, sent, now))
-    # status(): handler mapping, lock
+    okl = False
+    if sent_clock is not None and now_minus is not None and \
+            now_minus[0] == 'op' and now_minus[1] == '-':
+        now, sent = now_minus[2]
+        okl = struct(now) == struct(sent_clock) and struct(sent) == at(
+            pk, 'time') and any(t[0] == 'call' for t in subterms(now))
+    if not okl and 'status:pong-arm' not in prob:
+        prob['status:latency'] = (
+            'latency is %s with sent=%s: both stamps must come from the '
+            'same clock expression and the difference be now - sent' % (
+                show(now_minus) if now_minus else None,
+                show(sent_clock) if sent_clock else None))
+    for key, msg in sorted(prob.items()):
+        report.violation(R, key, fi.path, fi.node, fi.qualname, msg)
+    if not prob:
+        report.ok(R, 'response arm: handle_status(json.loads(response)) '
+                  'once; ping iff do_ping, else disconnect')
+        report.ok(R, 'ping arm: disconnect and handle_ping(now - '
+                  'packet.time) once, one clock')
+    # status(): handler mapping, do_ping, lock
     sf = M.conn_method('status')
-    gs = cfg_of(sf)
-    for hname in ('handle_status', 'handle_ping'):
-        stores = [n for n in gs.reachable_nodes() if isinstance(
-            n.ast, ast.Assign) and any(
-                isinstance(t, ast.Attribute) and t.attr == hname
-                for t in n.ast.targets)]
-        table = {}
-        for n in stores:
-            conds = [(ast.unparse(e), t) for e, t in
-                     boolfn.path_conditions(gs, n) if hname in
-                     ast.unparse(e)]
-            val = n.ast.value
-            kind = 'noop' if isinstance(val, ast.Lambda) and isinstance(
-                val.body, ast.Constant) and val.body.value is None else (
-                    'user' if ast.unparse(val) == hname else 'other')
-            table[kind] = conds
-        want = {'noop': [('%s is False' % hname, True)],
-                'user': [('%s is False' % hname, False),
-                         ('%s is not None' % hname, True)]}
-        if table == want:
+    sme = sy(sf.params[0])
+    table = {'handle_status': {}, 'handle_ping': {}}
+    flag = set()
+    locked = True
+    nst = 0
+    for p in S.run(sf):
+        if not p.returns:
+            continue
+        rs = [e for e in p.flat(('store',)) if struct(e.base) == sme
+              and e.attr == 'reactor']
+        if not rs:
+            continue
+        nst += 1
+        r = rs[-1].value
+        if not lock_held(rs[-1].held, sme, M):
+            locked = False
+        for hname in table:
+            h = sy(hname)
+            state = None
+            for a, pol, _ in p.conds:
+                if a[1] == 'is' and struct(a[2][0]) == h and is_const(
+                        a[2][1]):
+                    if a[2][1][1] is False and pol:
+                        state = 'false'
+                    elif a[2][1][1] is None and pol:
+                        state = 'none'
+            if state is None:
+                state = 'callable'
+            v = p.heap.get((r, hname))
+            if v is None:
+                kind = 'default'
+            elif struct(v) == h:
+                kind = 'user'
+            elif v[0] == 'fn' and isinstance(v[1].node, ast.Lambda) and \
+                    isinstance(v[1].node.body, ast.Constant) and \
+                    v[1].node.body.value is None:
+                kind = 'noop'
+            else:
+                kind = show(v)
+            table[hname].setdefault(state, set()).add(kind)
+        dp = p.heap.get((r, 'do_ping'))
+        hpf = None
+        for a, pol, _ in p.conds:
+            if a[1] == 'is' and struct(a[2][0]) == sy('handle_ping') and \
+                    a[2][1] == ('const', False):
+                hpf = pol
+        if dp is None:
+            flag.add('unset')
+        elif is_const(dp):
+            flag.add('ok' if hpf is not None and dp[1] == (not hpf)
+                     else 'const %r when handle_ping is False: %s' % (
+                         dp[1], hpf))
+        elif struct(dp) in (('op', 'isnot', (sy('handle_ping'),
+                                             ('const', False))),
+                            ('op', 'not', (('op', 'is', (
+                                sy('handle_ping'), ('const', False))),))):
+            flag.add('ok')
+        else:
+            flag.add(show(dp))
+    if not nst:
+        raise AnalysisError('status(): no path installs a reactor', sf.node,
+                            rel(sf.path))
+    want = {'false': {'noop'}, 'none': {'default'}, 'callable': {'user'}}
+    for hname in sorted(table):
+        if table[hname] == want:
             report.ok(R, 'status(): %s False -> no-op, callable -> '
                       'installed, None -> default' % hname)
         else:
             report.violation(R, 'status:map:%s' % hname, sf.path, sf.node,
                              sf.qualname, 'the %s argument is mapped as %s'
-                             % (hname, table))
-    # the reactor's do_ping flag: read off the constructor call, whichever
-    # way the argument is passed or pre-computed
-    flag = None
-    sr_ci = db.get_class('minecraft.networking.connection', 'StatusReactor')
-    for n in ast.walk(sf.node):
-        if isinstance(n, ast.Call):
-            ent = None
-            try:
-                ent = db.resolve_dotted(sf.module, n.func)
-            except AnalysisError:
-                pass
-            if ent is sr_ci:
-                m = shared.call_args(db, sf.module, n)
-                if m and 'do_ping' in m:
-                    flag = shared.expand_locals(sf, m['do_ping'])
-    ref = ast.parse('handle_ping is not False', mode='eval').body
-    if flag is not None and boolfn.same_function(flag, ref):
+                             % (hname, {k: sorted(v) for k, v in
+                                        table[hname].items()}))
+    if flag == {'ok'}:
         report.ok(R, 'do_ping = handle_ping is not False')
     else:
         report.violation(R, 'status:do-ping', sf.path, sf.node, sf.qualname,
                          'the status reactor is built with do_ping = %s; it '
-                         'must ping unless handle_ping is False' % (
-                             ast.unparse(flag) if flag is not None
-                             else '<no StatusReactor construction>'))
-    rs = [n for n in gs.reachable_nodes() if isinstance(n.ast, ast.Assign)
-          and any(isinstance(t, ast.Attribute) and t.attr == 'reactor'
-                  for t in n.ast.targets)]
-    if rs and all(M.node_in_lock(sf, n) for n in rs):
+                         'must ping unless handle_ping is False'
+                         % sorted(flag))
+    if locked:
         report.ok(R, 'status(): reactor installed while holding the lock '
                   'the new thread needs before its first write/read cycle')
     else:
@@ -653,80 +782,33 @@ def plain_status(report, db, cg, M, P):
                          'before may read the reply with the old reactor')
 
 
-def handshake_sources(report, db, cg, M, P, R):
-    hs = M.conn_method('_handshake')
-    me = hs.params[0]
-    vals = {}
-    for n in ast.walk(hs.node):
-        if isinstance(n, ast.Assign) and isinstance(n.targets[0],
-                                                    ast.Attribute) and \
-                isinstance(n.targets[0].value, ast.Name) and \
-                n.targets[0].value.id != me:
-            vals[n.targets[0].attr] = ast.unparse(n.value)
-        if isinstance(n, ast.Call):
-            for k in n.keywords:
-                if k.arg in ('protocol_version', 'server_address',
-                             'server_port', 'next_state'):
-                    vals[k.arg] = ast.unparse(k.value)
-    want = {'protocol_version': '%s.context.protocol_version' % me,
-            'server_address': '%s.options.address' % me,
-            'server_port': '%s.options.port' % me,
-            'next_state': hs.params[1]}
-    if vals == want:
-        report.ok(R, 'handshake fields: %s' % vals)
-    else:
-        diff = {k: vals.get(k) for k in want if vals.get(k) != want[k]}
-        report.violation(R, 'handshake:sources', hs.path, hs.node,
-                         hs.qualname, 'handshake fields come from %s; '
-                         'expected %s' % (diff, {k: want[k] for k in diff}))
+def lock_held(held, conn, M):
+    return any(struct(h) == at(conn, M.lock_attr) for h in held)
 
 
-def version_in_force(report, db, cg, M, P):
-    R = report.rule('R09.8', 'connect() puts the newest allowed version in '
-                    'force before the handshake and before the reactor '
-                    'builds its id table')
-    fi = M.conn_method('connect')
-    g = cfg_of(fi)
-    me = fi.params[0]
-    st = [n for n in g.reachable_nodes() if isinstance(n.ast, ast.Assign)
-          and any(ast.unparse(t) == '%s.context.protocol_version' % me
-                  for t in n.ast.targets)]
-    if len(st) != 1:
-        report.violation(R, 'inforce:store', fi.path, fi.node, fi.qualname,
-                         'connect() does not set context.protocol_version '
-                         'exactly once')
-        return
-    s = st[0]
-    v = s.ast.value
-    okv = isinstance(v, ast.Call) and ast.unparse(v.func) == 'max' and \
-        ast.unparse(v.args[0]) == '%s.allowed_proto_versions' % me and \
-        any(k.arg == 'key' and ast.unparse(k.value) ==
-            'PROTOCOL_VERSION_INDICES.get' for k in v.keywords)
-    if okv:
-        report.ok(R, 'version in force = max(allowed, key=chronological '
-                  'index)')
-    else:
-        report.violation(R, 'inforce:value', fi.path, s.ast, fi.qualname,
-                         'the version in force is %s, not the '
-                         'chronologically newest allowed version'
-                         % ast.unparse(v))
-    later = []
+def handshake_sources(report, db, S, M, P, R):
     hs = M.conn_method('_handshake')
-    for n in g.reachable_nodes():
-        if n.ast is None:
-            continue
-        for c in n.calls():
-            if any(m is hs for m, _, _ in cg.callee_funcs(fi, c)):
-                later.append(n)
-            ent = db.resolve_dotted(fi.module, c.func) if isinstance(
-                c.func, (ast.Name, ast.Attribute)) else None
-            if hasattr(ent, 'attrs') and db.is_subclass(ent, M.reactor):
-                later.append(n)
-    if later and all(g.dominates(s, n) for n in later):
-        report.ok(R, 'the store dominates %d handshake / reactor '
-                  'construction sites' % len(later))
-    else:
-        report.violation(R, 'inforce:order', fi.path, s.ast, fi.qualname,
-                         'a handshake or reactor is created before the '
-                         'version in force is set: it would use the '
-                         'previous connection\'s version')
+    me = sy(hs.params[0])
+    want = {'protocol_version': at(me, 'context', 'protocol_version'),
+            'server_address': at(me, 'options', 'address'),
+            'server_port': at(me, 'options', 'port'),
+            'next_state': sy(hs.params[1])}
+    n = 0
+    for p in S.run(hs):
+        for e, o, fields in shared.written_packets(p, P, db):
+            n += 1
+            vals = {k: struct(v) for k, v in fields.items() if k in want}
+            if vals == want:
+                report.ok(R, 'handshake fields: %s' % {
+                    k: show(v) for k, v in sorted(vals.items())})
+            else:
+                report.violation(R, 'handshake:sources', hs.path, e.node,
+                                 hs.qualname, 'handshake fields come from '
+                                 '%s; expected %s' % (
+                                     {k: show(v) for k, v in
+                                      sorted(vals.items())},
+                                     {k: show(v) for k, v in
+                                      sorted(want.items())}))
+    if not n:
+        raise AnalysisError('_handshake writes no packet', hs.node,
+                            rel(hs.path))
